@@ -112,7 +112,11 @@ class JSONValidator:
             if depth > self.max_depth:
                 return False, f"JSON depth exceeds limit ({depth} > {self.max_depth})"
             return True, None
-        except json.JSONDecodeError as e:
+        except RecursionError:
+            # Nested beyond what the parser itself can handle
+            return False, "JSON depth exceeds limit (too deeply nested to parse)"
+        except ValueError as e:
+            # JSONDecodeError, or e.g. an integer literal longer than the interpreter accepts
             return False, f"Invalid JSON: {e}"
 
     def _measure_depth(self, obj, current: int = 0) -> int:
